@@ -10,7 +10,8 @@ META = {
     "tag_request_path over the tag grammar (name lengths, 0-3 indices per level around the 8/16-bit boundaries, 0-3 member "
     "levels, program scope, symbolic and 8/16/32-bit symbol-instance addressing); port segments for ports 1..14, every "
     "alias, larger numbers, links 0..255, numeric strings, dotted quads of every length class; symbolic data segments. "
-    "Every emitted path is parsed by vmc/ref/epath.py and must yield exactly the intended segments. distinct = distinct input.",
+    "Route histories on a live driver (shared with C14): after every sequence of 2 (thorough 3) helper operations the Unconnected Send route "
+    "and the Forward Open connection path must still denote the configured route. Every emitted path is parsed by vmc/ref/epath.py and must yield exactly the intended segments. distinct = distinct input.",
     "explanation": "bounded-exhaustive enumeration, one path-builder call per case",
     "assumptions": [
         "the parser accepts any logical format wide enough for the value (minimal width is not demanded)",
@@ -44,6 +45,7 @@ def shards(tier, seed):
     sh += [("logical32", t) for t in LTYPES]
     sh += [("reqpath",), ("ports",), ("symbols",), ("epathopts",)]
     sh += [("tags", i) for i in range(16)]
+    sh += [("route-history", i) for i in range(3)]
     return sh
 
 
@@ -324,6 +326,19 @@ def run_shard(shard, tier, seed):
         check_epathopts(rep)
     elif k == "tags":
         check_tags(rep, shard[1], tier)
+    elif k == "route-history":
+        # emitted routes (Unconnected Send route path, Forward Open connection path) on a live driver must denote the
+        # configured route whatever helper calls came before: C14's history exploration, path observations only
+        from . import c14
+
+        sub = Report()
+        c14.run_history(sub, c14.HIST_PATHS[shard[1]], tier)
+        rep.evaluations, rep.transitions, rep.cases, rep.nontrivial, rep.outcomes, rep.samples = sub.evaluations, sub.transitions, sub.cases, sub.nontrivial, sub.outcomes, sub.samples
+        for sig, vs in sub.violations.items():
+            if sig.endswith(("/requests", "/forward")):
+                for v in vs:
+                    rep.violation("route-" + sig, v.msg, {"kind": "route-history", "shard": shard[1], "case": v.replay["case"]})
+                rep.viol_counts["route-" + sig] = sub.viol_counts[sig]
     return rep
 
 
@@ -333,6 +348,8 @@ def replay(r):
     if k in ("logical", "logical-bad"):
         v = r["value"] if k == "logical" else 0
         check_logical(rep, r["ltype"], [v] if k == "logical" else [], forms=(r.get("form", "int"),))
+    elif k == "route-history":
+        rep = run_shard(("route-history", r["shard"]), "quick", 0)
     elif k == "reqpath":
         check_reqpath(rep)
     elif k in ("port", "bigport", "badlink", "badport"):
